@@ -1,0 +1,19 @@
+//go:build verif
+
+package netmap
+
+import (
+	"runtime"
+	"time"
+)
+
+// VerifSync blocks until every task submitted to the processor's worker pool
+// before the call has finished (the pool must have capacity 1).
+func (p *Processor) VerifSync() {
+	done := make(chan struct{})
+	for p.pool.Submit(func() { close(done) }) != nil {
+		runtime.Gosched()
+		time.Sleep(20 * time.Microsecond)
+	}
+	<-done
+}
